@@ -23,6 +23,7 @@ import GE.Model.CssIO
 import GE.Model.TagSemJson
 import GE.Model.TagTree
 import GE.Model.Link
+import GE.Model.ChildArgs
 /-!
 Model driver: one request per line (`op TAB field…`), one answer line per request.
 Unknown ops answer `bad-op` (never defaulted).
@@ -250,6 +251,10 @@ def step (fs : List String) : String :=
       match GE.Link.lookup G path (mk path defs) srcs P with
       | some l => l
       | none => ""))
+  | ["child_args", kinds, ws] =>
+    let ks := (kinds.splitOn ",").filter (· ≠ "")
+    let letters := (ks.flatMap GE.ChildArgs.calls).eraseDups
+    GE.ChildArgs.functionArgs ks (ws == "1") ++ "\t" ++ String.intercalate "," (["T", "E", "B", "F", "S", "J"].filter (letters.contains ·))
   | "if_selector" :: scopes :: conds =>
     match conds.mapM parseCond with
     | none => "bad-cond"
